@@ -85,10 +85,10 @@ func c20Proc(part int) {
 		oi = vapi.Pick("origin", 2)
 	}
 	raw.CDNOriginHost = origins[oi]
-	paths := []string{"", "/ws", "/a/b"}
+	paths := []string{"", "/ws", "/a/b", "/cloak/", "/a//b", "/a/../b", "/"}
 	pi := 0
 	if part == 1 {
-		pi = vapi.Pick("path", 3)
+		pi = vapi.Pick("path", len(paths))
 	}
 	raw.CDNWsUrlPath = paths[pi]
 	altShapes := [][]string{nil, {"cloudflare.com", "github.com"}, {"", "github.com"}, {"cloudflare.com", "", "", "github.com"}, {"", ""}}
